@@ -92,9 +92,15 @@ def build_population(case):
     geno = rs.randint(0, 2, size=(2, n, p)).astype("int8")
     if case.get("clone") and n >= 2:        # two taxa with identical genotypes (ties in genotypic value)
         geno[:, 1, :] = geno[:, 0, :]
+    if case.get("all_clones") and n >= 2:   # a fixed population: every taxon carries the same genotype, no variance among taxa
+        geno[:, :, :] = geno[:, :1, :]
     beta = _dyadic(rs, (1, t), -40, 41, 4.0)
     if case.get("big_intercept"):
         beta = beta + 128.0
+    if case.get("decimal_intercept"):
+        # values that are not exactly representable (0.1, 7.3, ...): a trait without variance among taxa then has a common value
+        # whose square and mean round -- comparisons of such cases are tolerance based
+        beta = beta + numpy.array([[0.1, 7.3, 1.0 / 3.0][k % 3] for k in range(t)]).reshape(1, t)
     u_a = _dyadic(rs, (p, t))
     u_d = _dyadic(rs, (p, t))
     if case.get("zero_trait") is not None and case["zero_trait"] < t:   # a trait without genetic variance
@@ -472,6 +478,7 @@ def _base_case(rnd, tier):
                 trait_named=rnd.random() < 0.5, clone=rnd.random() < 0.2, big_intercept=rnd.random() < 0.15,
                 nenv=nenv, nrep=rnd.choice(_NREP_MENU[nenv]), miscout=rnd.random() < 0.3,
                 rseed=rnd.randrange(10 ** 6), reconf=rnd.random() < 0.25, calls=rnd.choice([1, 1, 1, 2]),
+                all_clones=rnd.random() < 0.08, decimal_intercept=rnd.random() < 0.2, zero_trait=rnd.choice([None, None, None, None, 0]),
                 copy=rnd.choice([None, None, None, "copy", "deepcopy"]))
 
 
@@ -666,7 +673,10 @@ def gen_herit_cases(rnd, tier):
         c.update(family="herit", which=rnd.choice(["h2", "H2"]), h=h,
                  var_env=rnd.choice([None, 0.0, 1.0, [1.0, 0.0, 2.0]]), var_rep=rnd.choice([None, 0.0, 0.5]),
                  var_err=rnd.choice([None, 0.0, 3.0, [5.0, 6.0, 7.0]]), omit_none=False,
-                 rng=rnd.choice(["scripted", "recorded"]), zero_trait=rnd.choice([None] * 30 + [0, 1]))
+                 rng=rnd.choice(["scripted", "recorded"]), zero_trait=rnd.choice([None] * 30 + [0, 1]),
+                 # exact (dyadic) values only here: a trait without genetic variance must have variance exactly 0 for the
+                 # "target undefined" clause, which rounding of non-dyadic common values would blur
+                 decimal_intercept=False, all_clones=False)
         if rnd.random() < 0.5:
             c["model"] = "AD"       # additive variance != genotypic variance
         yield c
